@@ -101,6 +101,40 @@ pub fn jobs(tier: Tier, seed: u64) -> Vec<Job> {
         let env = if var_state.is_empty() { vec![] } else { vec![("BPAFMC_C20", var_state)] };
         out.push(Job { opts: o, alpha: toks(&["--level=1", "--level", "2", "--name=bob", "-s", "--help"]), len: 3, env });
     }
+    // env-backed flags with the variable set AND the flag typed (switch / req_flag / count, top
+    // level and inside a command, also in a cluster)
+    for k in 0..3 {
+        let n = Names::both('s', "sw").env("BPAFMC_C20S");
+        let item = match k {
+            0 => P::Switch(n),
+            1 => P::ReqFlag(n).opt(),
+            _ => P::Count(P::ReqFlag(n).bx()),
+        };
+        let q = P::Switch(Names::short('q'));
+        let o = Opts::new(P::Seq(vec![q.clone(), item.clone()]));
+        let alpha = toks(&["-s", "--sw", "-q", "-qs", "-sq", "cmd", "--help"]);
+        out.push(Job { opts: o, alpha: alpha.clone(), len: 3, env: vec![("BPAFMC_C20S", "1")] });
+        let o = Opts::new(P::Seq(vec![q.clone(), P::cmd("cmd", Opts::new(P::Seq(vec![item])))]));
+        out.push(Job { opts: o, alpha, len: 3, env: vec![("BPAFMC_C20S", "1")] });
+    }
+    // a sub-command under fallback as one branch of a choice: entering it and failing (or asking
+    // for its help) must pick the same branch in every build
+    {
+        let build = P::cmd("build", Opts::new(P::Seq(vec![P::arg(Names::long("target"), Ty::Os), P::arg(Names::short('j'), Ty::U32).opt()])));
+        let file = P::Pos { ty: Ty::Os, strict: Strict::Any, metavar: "FILE".into(), help: None };
+        for order in 0..2 {
+            for fw in [false, true] {
+                let b = if fw { P::FallbackWith(build.clone().bx(), Ok(Val::s("dflt"))) } else { P::Fallback(build.clone().bx(), Val::s("dflt"), false) };
+                let (x, y) = (P::Map(b.bx(), "b".into()), P::Map(file.clone().bx(), "f".into()));
+                let alt = if order == 0 { P::Alt(vec![x, y]) } else { P::Alt(vec![y, x]) };
+                let o = Opts::new(P::Seq(vec![P::Switch(Names::short('v')), alt]));
+                out.push(Job { opts: o, alpha: toks(&["build", "--target=x", "-j", "2", "-v", "w", "--help"]), len: 4, env: vec![] });
+            }
+        }
+    }
+    for (_, o, _) in crate::checks::c10::odd_command_cases() {
+        out.push(Job { opts: o, alpha: toks(&["sync", "-S", "other", "--dry", "-j", "x", "-q", "-v", "--jobs", "--help"]), len: 3, env: vec![] });
+    }
     // wrappers that swallow a failure after the inner parser consumed something (catch, groups
     // that give up half way, non-strict positionals): the restore of the argument state sits
     // next to feature-gated completion bookkeeping
